@@ -257,7 +257,9 @@ def handle (j : Json) : Except String Json := do
     match hdr.mapM parseCol with
     | none => return Json.mkObj [("ok", true), ("check", false), ("why", "a header name is not a column name")]
     | some cols =>
-      return Json.mkObj [("ok", true), ("check", checkTable tol cols hdr rows jobs n),
+      let needMeta := (fieldD j "need_meta" (Json.bool true)).getBool?.toOption.getD true
+      return Json.mkObj [("ok", true), ("check", checkTable tol cols hdr rows jobs n needMeta),
+        ("meta_ok", headerMetaOK cols jobs),
         ("cols_ok", decide (cols.map Col.name = hdr)), ("arity", ofOptNat n)]
   | "pareto_check" =>
     -- verified checker of C11 on the implementation's flags: pts = negated successful objectives
